@@ -271,51 +271,7 @@ func propC13(c *Ctx) {
 		if o.Sites < 2 {
 			o.Fail("-", "setter stores not found (floor 2)", nil)
 		}
-		// insertion sites pair both indexes
-		type site struct {
-			pkg, typ, name string
-			params         []string
-		}
-		for _, s := range []site{
-			{childKeeper, "MsgServer", "AddValidator", hParams},
-			{childKeeper, "Keeper", "ChangeExecutor", []string{"k", "ctx", "plan"}},
-			{childKeeper, "Keeper", "InitGenesis", []string{"k", "ctx", "data"}},
-			{childKeeper, "MsgServer", "RemoveValidator", hParams},
-		} {
-			fn := c.Method(s.pkg, s.typ, s.name)
-			o := c.Ob("C13.R2", s.name+": every inserted validator record gets its consensus-key index entry")
-			po := PO{Params: s.params, Visits: 3, Callbacks: true, NoInline: []string{".Validate", "Keeper).SetValidator", "SetValidatorByConsAddr", "GetAllValidators", "MaxValidators", "Keeper).GetValidator", "GetValidatorByConsAddr", "types.NewValidator", "SetParams", "GetParams", "ApplyAndReturnValidatorSetUpdates", "SetLastValidatorPower", "SetNextL", "BridgeInfo", "DenomPairs"}}
-			for _, p := range c.Paths(fn, po) {
-				o.Paths++
-				o.Facts += p.NFacts()
-				if p.Panic || !p.OK() {
-					continue
-				}
-				for _, i := range p.Find(func(ev *Event) bool {
-					return ev.Kind == EvCall && isCall(ev, "Keeper).SetValidator(") || ev.Kind == EvCall && strings.HasSuffix(ev.Call.Name, "Keeper).SetValidator")
-				}) {
-					o.Sites++
-					v := p.Events[i].Call.Args[2]
-					// same record with only ConsPower changed: no index change required
-					if v.Op == "update" && v.Name == "ConsPower" && v.Args[0].Op == "extract" && strings.HasSuffix(v.Args[0].Args[0].Name, "Keeper).GetValidator") {
-						continue
-					}
-					paired := false
-					for j := i + 1; j < len(p.Events); j++ {
-						e2 := &p.Events[j]
-						if e2.Kind == EvCall && strings.HasSuffix(e2.Call.Name, "Keeper).SetValidatorByConsAddr") && e2.Call.Args[2].String() == v.String() {
-							paired = true
-						}
-					}
-					if !paired {
-						o.Fail(c.evPos(&p.Events[i]), "validator record "+trunc(v.Key(), 100)+" inserted without its consensus-key index entry", c.Dump(p, -1))
-					}
-				}
-			}
-			if o.Sites == 0 {
-				o.Fail(c.W.Pos(fn.Pos()), "no SetValidator call on a success path", nil)
-			}
-		}
+		indexPaired(c, "C13.R2")
 		rv := c.Method(childKeeper, "Keeper", "RemoveValidator")
 		o2 := c.Ob("C13.R2", "RemoveValidator: removes the record and the index entry of that record's consensus address")
 		for _, p := range c.Paths(rv, PO{Params: []string{"k", "ctx", "address"}, NoInline: []string{"GetConsAddr"}, Pure: []string{"GetConsAddr"}}) {
@@ -1165,3 +1121,56 @@ func diffComplete(c *Ctx, rule string) {
 			o.Fail(c.W.Pos(fn.Pos()), "no success path", nil)
 		}
 	}
+
+// indexPaired: at every insertion site a validator record that is stored gets the index entry
+// of its consensus key (the index stays one-to-one with the records).  Shared by C13 and, for
+// the genesis importer, C16 (a re-imported chain answers consensus-key lookups like the original).
+func indexPaired(c *Ctx, rule string, only ...string) {
+		type site struct {
+			pkg, typ, name string
+			params         []string
+		}
+		for _, s := range []site{
+			{childKeeper, "MsgServer", "AddValidator", hParams},
+			{childKeeper, "Keeper", "ChangeExecutor", []string{"k", "ctx", "plan"}},
+			{childKeeper, "Keeper", "InitGenesis", []string{"k", "ctx", "data"}},
+			{childKeeper, "MsgServer", "RemoveValidator", hParams},
+		} {
+			if len(only) > 0 && !setOf(only...)[s.name] {
+				continue
+			}
+			fn := c.Method(s.pkg, s.typ, s.name)
+			o := c.Ob(rule, s.name+": every inserted validator record gets its consensus-key index entry")
+			po := PO{Params: s.params, Visits: 3, Callbacks: true, NoInline: []string{".Validate", "Keeper).SetValidator", "SetValidatorByConsAddr", "GetAllValidators", "MaxValidators", "Keeper).GetValidator", "GetValidatorByConsAddr", "types.NewValidator", "SetParams", "GetParams", "ApplyAndReturnValidatorSetUpdates", "SetLastValidatorPower", "SetNextL", "BridgeInfo", "DenomPairs"}}
+			for _, p := range c.Paths(fn, po) {
+				o.Paths++
+				o.Facts += p.NFacts()
+				if p.Panic || !p.OK() {
+					continue
+				}
+				for _, i := range p.Find(func(ev *Event) bool {
+					return ev.Kind == EvCall && isCall(ev, "Keeper).SetValidator(") || ev.Kind == EvCall && strings.HasSuffix(ev.Call.Name, "Keeper).SetValidator")
+				}) {
+					o.Sites++
+					v := p.Events[i].Call.Args[2]
+					// same record with only ConsPower changed: no index change required
+					if v.Op == "update" && v.Name == "ConsPower" && v.Args[0].Op == "extract" && strings.HasSuffix(v.Args[0].Args[0].Name, "Keeper).GetValidator") {
+						continue
+					}
+					paired := false
+					for j := i + 1; j < len(p.Events); j++ {
+						e2 := &p.Events[j]
+						if e2.Kind == EvCall && strings.HasSuffix(e2.Call.Name, "Keeper).SetValidatorByConsAddr") && e2.Call.Args[2].String() == v.String() {
+							paired = true
+						}
+					}
+					if !paired {
+						o.Fail(c.evPos(&p.Events[i]), "validator record "+trunc(v.Key(), 100)+" inserted without its consensus-key index entry", c.Dump(p, -1))
+					}
+				}
+			}
+			if o.Sites == 0 {
+				o.Fail(c.W.Pos(fn.Pos()), "no SetValidator call on a success path", nil)
+			}
+		}
+}
